@@ -63,7 +63,9 @@ NotAgreesWithTruthy(N(_), T(_), a) ==
 (* number: -0 and 0 are the same number) or a boolean                      *)
 Restored(v, w) ==
   CASE v.t = "bool" -> w = v
-    [] v.t = "num" -> w.t = "num" /\ (w.c = "inexact" \/ (v.c = "nan" /\ w.c = "nan") \/ NumEq(v, w) = "T")
+    \* judged where double arithmetic is exact: adding 1 to a tiny number (1e-16) rounds, as IEEE prescribes, and the way back
+    \* cannot restore what the rounding dropped
+    [] v.t = "num" -> w.t = "num" /\ (v.c = "tiny" \/ w.c = "inexact" \/ (v.c = "nan" /\ w.c = "nan") \/ NumEq(v, w) = "T")
     [] OTHER -> TRUE
 IncDecInverse(I(_, _), a, k) ==
   a.t \in {"bool", "num"} /\ IsVal(I(a, k)) => Restored(a, I(I(a, k), -k))
